@@ -54,14 +54,7 @@ def opHashDigest (a : Json) : Json :=
   | some d, some o => Json.mkObj [("digest", jstr d), ("oneshot", jstr o), ("length", jnat content.length)]
   | _, _ => jerr "unmodelled"
 
-/-- the padded tail the finaliser compresses (for the boundary lengths: how many blocks the padding takes) -/
-def opHashPad (a : Json) : Json :=
-  let bs := (getNat? a "block").getD 64
-  let lb := (getNat? a "len_bytes").getD 8
-  let pending := (getNat? a "pending").getD 0
-  jnat (HashMD.mdPad bs lb true (List.replicate pending 0) pending).length
-
 def ops : List (String × (Json → Json)) :=
-  [("hash_digest", opHashDigest), ("hash_pad_length", opHashPad)]
+  [("hash_digest", opHashDigest)]
 
 end PM.Driver.OpsHash
